@@ -19,7 +19,21 @@ TRUSTED = [
     "list.copy() / list.pop(i) / enumerate / dict.get list-and-dict views of pyvc; ScheduledTask(...) keeps the fields it is given (validation accepts entries with cron or time)",
 ]
 
+
+def _loop_roles(fdef):
+    """names of the loop variables, read from the AST (outer: `for <name>, <task> in ...get_all_tasks().items()`; inner: the loop over the schedule list)"""
+    outer = [n_ for n_ in ast.walk(fdef) if isinstance(n_, ast.For) and ast.unparse(n_.iter) == 'self.broker.get_all_tasks().items()']
+    if len(outer) != 1 or not (isinstance(outer[0].target, ast.Tuple) and len(outer[0].target.elts) == 2 and all(isinstance(x, ast.Name) for x in outer[0].target.elts)):
+        raise Unsupported(fdef.name + ": expected one loop `for <name>, <task> in self.broker.get_all_tasks().items()`")
+    inner = [n_ for n_ in ast.walk(outer[0]) if isinstance(n_, ast.For) and n_ is not outer[0]]
+    if len(inner) != 1: raise Unsupported(fdef.name + ": expected one inner loop over the task's schedule entries")
+    return outer[0].target.elts[0].id, outer[0].target.elts[1].id, inner[0]
+
 def gen_get_schedules(src, fdef):
+    TNAME, TASK, INNER = _loop_roles(fdef)
+    Exec.inline_scope = (src, REL, 'LabelScheduleSource')
+    if not isinstance(INNER.target, ast.Name): raise Unsupported('get_schedules: inner loop target')
+    SCHED = INNER.target.id
     self_a, names_a, vals_a, own_broker = Ints('self_a names_a vals_a own_broker'); NT = Int('n_tasks')
     KEY = {k: STR.get(k) for k in ('schedule', 'cron', 'time', 'labels', 'args', 'kwargs', 'cron_offset')}
     p, q, j, t_, e_ = Ints('p q j t_ e_')
@@ -63,12 +77,12 @@ def gen_get_schedules(src, fdef):
         def ev_Attribute(self, e, st, k, K_):
             p_ = ast.unparse(e)
             if p_ == 'self.broker': return k(st, Val.ref(own_broker))
-            if p_ == 'task.broker': return k(st, H0.field('broker')[Val.a(to_val(st.env['task']))])
-            if p_ == 'task.labels': return k(st, PyDict(Val.a(H0.field('labels')[Val.a(to_val(st.env['task']))])))
+            if p_ == TASK + '.broker': return k(st, H0.field('broker')[Val.a(to_val(st.env[TASK]))])
+            if p_ == TASK + '.labels': return k(st, PyDict(Val.a(H0.field('labels')[Val.a(to_val(st.env[TASK]))])))
             return super().ev_Attribute(e, st, k, K_)
         def ev_Compare(self, e, st, k, K_):
-            if isinstance(e.ops[0], ast.NotIn) and ast.unparse(e.comparators[0]) == 'schedule':
-                d = PyDict(Val.a(to_val(st.env['schedule'])))
+            if isinstance(e.ops[0], ast.NotIn) and ast.unparse(e.comparators[0]) == SCHED:
+                d = PyDict(Val.a(to_val(st.env[SCHED])))
                 return self.ev(e.left, st, lambda s, v: k(s, PyBool(Not(s.heap.dhas[d.addr][to_val(v)]))), K_)
             return super().ev_Compare(e, st, k, K_)
         def find_handler(self, name, recv=None):
@@ -107,17 +121,17 @@ def gen_get_schedules(src, fdef):
         if itx == 'self.broker.get_all_tasks().items()':
             check(st, Inv(st.ghost, IntVal(0), IntVal(0)), "get_schedules/outer/inv-entry")
             it = st.fork(); havoc_ghost(it); i = fresh('ti', IntSort()); it.pc += [i >= 0, i < NT]; assume(it, Inv(it.ghost, i, IntVal(0)))
-            it.env = dict(it.env); it.env.update(task_name=H0.litem[names_a][i], task=H0.litem[vals_a][i], __ti=i)
+            it.env = dict(it.env); it.env.update({TNAME: H0.litem[names_a][i], TASK: H0.litem[vals_a][i], '__ti': i})
             def back(s3): check(s3, Inv(s3.ghost, i + 1, IntVal(0)), "get_schedules/outer/inv-preserved")
             K2 = dict(K_); K2['cont'] = back
             ex.block(s.body, it, back, K2)
             out = st.fork(); havoc_ghost(out); assume(out, Inv(out.ghost, NT, IntVal(0))); return k(out)
-        if itx == "task.labels.get('schedule', [])":
+        if itx == TASK + ".labels.get('schedule', [])":
             ti = st.env['__ti']
             def with_list(s2, lst):
                 n = s2.heap.llen[lst.addr]
                 it = s2.fork(); havoc_ghost(it); i = fresh('ei', IntSort()); it.pc += [i >= 0, i < n]; assume(it, Inv(it.ghost, ti, i))
-                it.env = dict(it.env); it.env.update(schedule=s2.heap.litem[lst.addr][i], __ei=i)
+                it.env = dict(it.env); it.env.update({SCHED: s2.heap.litem[lst.addr][i], '__ei': i})
                 def back(s3):
                     # ghost inverse update is part of the proof script: pos(ti, i) := index just appended (if any)
                     check(s3, Inv(s3.ghost, ti, i + 1), "get_schedules/inner/inv-preserved")
@@ -150,6 +164,12 @@ def gen_get_schedules(src, fdef):
     ex.run(fdef, st, on_ret, lambda s, x: exits.update(['raise']))
 
 def gen_post_send(src, fdef):
+    TNAME, TASK, INNER = _loop_roles(fdef)
+    Exec.inline_scope = (src, REL, 'LabelScheduleSource')
+    if not (isinstance(INNER.target, ast.Tuple) and len(INNER.target.elts) == 2 and isinstance(INNER.iter, ast.Call) and ast.unparse(INNER.iter.func) == 'enumerate' and isinstance(INNER.iter.args[0], ast.Name)):
+        raise Unsupported('post_send: expected `for <idx>, <entry> in enumerate(<copy of the schedule list>)`')
+    IDX, SCHED, LISTV = INNER.target.elts[0].id, INNER.target.elts[1].id, INNER.iter.args[0].id
+    FIRED = fdef.args.args[1].arg
     self_a, fired_a, tasks_names_a, tasks_vals_a, own_broker = Ints('self_a fired_a names_a vals_a own_broker')
     NT = Int('n_tasks'); K_SCHED, K_TIME = STR.get('schedule'), STR.get('time')
     py_eq = Function('py_eq', Val, Val, BoolSort())          # Python == on label values (datetimes): assumed an equivalence
@@ -182,12 +202,12 @@ def gen_post_send(src, fdef):
         def ev_Attribute(self, e, st, k, K):
             p_ = ast.unparse(e)
             if p_ == 'self.broker': return k(st, Val.ref(own_broker))
-            if p_ == 'task.broker': return k(st, st.heap.field('broker')[Val.a(to_val(st.env['task']))])
-            if p_ == 'task.labels': return k(st, PyDict(Val.a(st.heap.field('labels')[Val.a(to_val(st.env['task']))])))
-            if p_.startswith('scheduled_task.'): return k(st, st.heap.field(e.attr)[fired_a])
+            if p_ == TASK + '.broker': return k(st, st.heap.field('broker')[Val.a(to_val(st.env[TASK]))])
+            if p_ == TASK + '.labels': return k(st, PyDict(Val.a(st.heap.field('labels')[Val.a(to_val(st.env[TASK]))])))
+            if p_.startswith(FIRED + '.'): return k(st, st.heap.field(e.attr)[fired_a])
             return super().ev_Attribute(e, st, k, K)
         def ev_Compare(self, e, st, k, K):
-            if ast.unparse(e) == "schedule.get('time') == scheduled_task.time":
+            if ast.unparse(e) in (f"{SCHED}.get('time') == {FIRED}.time", f"{FIRED}.time == {SCHED}.get('time')"):
                 return self.ev_list([e.left, e.comparators[0]], st, lambda s, vs: k(s, PyBool(py_eq(to_val(vs[0]), to_val(vs[1])))), K)
             return super().ev_Compare(e, st, k, K)
         def find_handler(self, name, recv=None):
@@ -216,7 +236,7 @@ def gen_post_send(src, fdef):
             it = st.fork(); i = fresh('ti', IntSort()); it.pc += [i >= 0, i < NT]
             it.heap = it.heap.copy(); it.heap.next = fresh('next_h', IntSort())
             for c in inv(it, i): (it.facts if is_quantifier(c) else it.pc).append(c)
-            it.env = dict(it.env); it.env['task_name'] = name_at(it.heap, i); it.env['task'] = H0.litem[tasks_vals_a][i]; it.env['__ti'] = i
+            it.env = dict(it.env); it.env[TNAME] = name_at(it.heap, i); it.env[TASK] = H0.litem[tasks_vals_a][i]; it.env['__ti'] = i
             def back(s3):
                 for c in inv(s3, i + 1): oblige(s3, "post_send/outer/inv-preserved", c)
             K2 = dict(K); K2['cont'] = back
@@ -224,13 +244,13 @@ def gen_post_send(src, fdef):
             out = st.fork(); out.heap = out.heap.copy(); out.heap.next = fresh('next_h', IntSort())
             for c in inv(out, NT): (out.facts if is_quantifier(c) else out.pc).append(c)
             return k(out)
-        if itx == 'enumerate(schedule_list)':
-            lst = st.env['schedule_list']; ti = st.env['__ti']
+        if itx == f'enumerate({LISTV})':
+            lst = st.env[LISTV]; ti = st.env['__ti']
             def inv(sx, ix): return [sx.ghost['pops'] == 0, sx.heap.litem == st.heap.litem, sx.heap.llen == st.heap.llen, sx.heap.dval == st.heap.dval, sx.heap.dhas == st.heap.dhas,
                                      ForAll([j], Implies(And(0 <= j, j < ix), Not(py_eq(entry_time(st.heap, lst.addr, j), fired_time))))]
             it = st.fork(); i = fresh('idx', IntSort()); it.pc += [i >= 0, i < st.heap.llen[lst.addr]]
             for c in inv(it, i): (it.facts if is_quantifier(c) else it.pc).append(c)
-            it.env = dict(it.env); it.env['idx'] = PyInt(i); it.env['schedule'] = st.heap.litem[lst.addr][i]
+            it.env = dict(it.env); it.env[IDX] = PyInt(i); it.env[SCHED] = st.heap.litem[lst.addr][i]
             def back(s3):
                 for c in inv(s3, i + 1): oblige(s3, "post_send/inner/inv-preserved", c)
             ex.block(s.body, it, back, K)
@@ -239,7 +259,7 @@ def gen_post_send(src, fdef):
             return k(out)
         raise Unsupported(itx)
     ex = Ex({'logger.*': noop, 'self.broker.get_all_tasks': h_get_all_tasks, 'self.broker.get_all_tasks().items': h_items, 'dict.get': h_dict_get, 'list.copy': h_list_copy, 'list.pop': h_list_pop, '@for': h_for})
-    st = st0; st.env = {'self': PyObj(self_a), 'scheduled_task': PyObj(fired_a)}
+    st = st0; st.env = {'self': PyObj(self_a), FIRED: PyObj(fired_a)}
     st.ghost = dict(pops=IntVal(0), popped_from=IntVal(-1), popped_idx=IntVal(-1))
     h = st.heap
     wf = [NT >= 0, h.llen[tasks_names_a] == NT, h.llen[tasks_vals_a] == NT, h.next > 0,
